@@ -481,6 +481,22 @@ def leaked_handle_programs():
         for fn, (fsrc, handles) in fresh.items():
             probes = " ".join("echo(measure %s);" % hnd for hnd in handles)
             yield ("escape:leak-%s:%s:x-via-leaked-handle" % (ln, fn), cls + "function main() -> void { qubit pad; %s %s x(s); %s }\n" % (lsrc, fsrc, probes), len(handles))
+    # (hunt C04 d1-d3) the new qubit is declared WHILE the handle exists only inside the evaluation of its own expression: by the index
+    # expression, by the destructor of a field of the dying temporary, by a destructor that runs while the returned handle is parked
+    extra = ("function keepso() -> int { G.so = new Lk(); return 0; }\n"
+             "class Fd { public int k = 0; public constructor() -> Fd = default; public destructor() -> void { G.so = new Lk(); } }\n"
+             "class Td { public qubit q; public Fd f; public constructor() -> Td { this.f = new Fd(); } public function getq() -> qubit { return this.q; } }\n"
+             "function firstq(Td t) -> qubit { return t.q; }\n"
+             "function mkso() -> void { G.so = new Lk(); }\n"
+             "class Al { public int k = 0; public constructor() -> Al = default; public destructor() -> void { mkso(); } }\n"
+             "function viad2() -> qubit { if (true) { Al al = new Al(); Lk a = new Lk(); return a.q; } qubit u; return u; }\n")
+    during = {"index-expression-allocates": "qubit s = new Lr().r[keepso() + 1];", "owner-dropped-and-index-allocates": "G.o = new Lr(); qubit s = G.o.r[dropo() + keepso() + 1];",
+              "field-destructor-of-temporary-allocates": "qubit s = new Td().q;", "field-destructor-of-temporary-allocates-method": "qubit s = new Td().getq();",
+              "field-destructor-of-argument-allocates": "qubit s = firstq(new Td());", "destructor-call-allocates-while-return-parked": "qubit s = viad2();"}
+    for dn, dsrc in during.items():
+        for probe in ("x(s); echo(measure G.so.q);", "x(G.so.q); echo(measure s);"):
+            yield ("escape:leak-during-%s:%s:x-via-leaked-handle" % (dn, "gate-leaked" if probe.startswith("x(s)") else "gate-fresh"),
+                   cls + extra + "function main() -> void { qubit pad; %s %s }\n" % (dsrc, probe), 1)
     # the handle is a field of the object whose destructor is running; the owner dies inside that destructor
     for fn, (fsrc, handles) in fresh.items():
         probes = " ".join("echo(measure %s);" % hnd for hnd in handles)
